@@ -31,6 +31,8 @@ LAYOUT_CHARS = [" ", "\t", "\r", "\n", "#", ",", ";"]
 
 
 def run(ctx, ss):
+    from .common import keyword_vocabulary
+    ctx.guard("C02.2", keyword_vocabulary, ss, "C02.2", ('start',), ())
     for r, f in (("C02.1", p1), ("C02.2", p2), ("C02.3", p3), ("C02.4", p4), ("C02.5", p5),
                  ("C02.6", p6), ("C02.7", p7), ("C02.8", p8)):
         ctx.guard(r, f, ss)
